@@ -145,6 +145,7 @@ def mkexpr(roots, e):
 # ---------------------------------------------------------------- instrumentation
 TRACE = []
 STARTS = []
+SELFDEP = set()      # function tasks of the current case that read one of their own targets
 
 
 def _wrap_run(cls):
@@ -269,6 +270,8 @@ def order_cycle(tasks):
     for t in tasks:
         # a definition that reads its own target is a genuine data-flow cycle (outside the properties)
         if isinstance(t, ExprTask) and t.taskid in t.dependencies:
+            return True
+        if isinstance(t, FunctionTask) and t.taskid in SELFDEP:
             return True
     ids = {id(t): i for i, t in enumerate(tasks)}
     adj = {i: [] for i in ids.values()}
@@ -516,6 +519,7 @@ def fresh_check(m, roots, roots_data, leaves, followups):
 # ---------------------------------------------------------------- running a case
 def run_case(case, opts):
     FAULT["n"] = None
+    SELFDEP.clear()
     m = xd.Manager()
     roots, roots_data = {}, {}
     for label, spec in case["store"]:
@@ -565,6 +569,8 @@ def run_case(case, opts):
                 def action(writes=writes):
                     for r, e in writes:
                         r._set_value(e._get_value() if isinstance(e, BaseRef) else e)
+                if any(p in op[3] for p in op[2]):
+                    SELFDEP.add(op[1])          # not idempotent: a genuine data-flow cycle
                 # targets and dependencies closed under enclosing containers, as ExprTask computes them
                 tars, deps = set(), set()
                 for p in op[2]:
